@@ -676,7 +676,7 @@ def arr_index(ex, st, a, sl_, node):
         hi = ex.need_num(st, ex.ev(sl_.upper, st), node)
         if is_intsort(lo) and is_intsort(hi):
             used('v[lo:hi] of a float vector -> the block of hi - lo consecutive elements starting at lo (0 <= lo <= hi <= len required here)')
-            ex.oblige(st, 'safety', 'slice-in-range', z3.And(Z(lo) >= 0, Z(lo) <= Z(hi), Z(hi) <= Z(a.shape[0])), node)
+            ex.oblige(st, 'restriction', 'slice-in-range', z3.And(Z(lo) >= 0, Z(lo) <= Z(hi), Z(hi) <= Z(a.shape[0])), node)
             out = VArr((Z(hi) - Z(lo),), None, 'flatcut', a.dtype)
             out.base, out.lo = a.t, Z(lo)
             return out
